@@ -1,6 +1,6 @@
 import Updog.Generated
 namespace Updog.Facts
 open Updog.Generated
-theorem C05_facts : valueIndexShape = true ∧ flushWritesInPlace = true ∧ bigNilGuard = true ∧ bigSingleOutputCommit = true ∧
+theorem C05_facts : libraryNoCodecHooks = true ∧ valueIndexShape = true ∧ flushWritesInPlace = true ∧ bigNilGuard = true ∧ bigSingleOutputCommit = true ∧
     addRowLockedMem = true ∧ addRowLockedBig = true ∧ 1 ≤ batchMem ∧ 1 ≤ batchBig ∧ closeIdempotent = true := by decide
 end Updog.Facts
